@@ -18,6 +18,17 @@ pub struct C11;
 
 // lseek: the positioning done as part of opening a WAL file / handing the cursor to the writer
 const CLASSES: [usize; 5] = [CL_OPENDIR, CL_READDIR, CL_OPEN_FILE, CL_READ, CL_LSEEK];
+/// Every image uses EIO, ENOENT and a rotating choice of four more from this pool.
+const ERRNO_POOL: [(i32, &str); 8] = [
+    (libc::EISDIR, "EISDIR"),
+    (libc::ENOTDIR, "ENOTDIR"),
+    (libc::ELOOP, "ELOOP"),
+    (libc::EINVAL, "EINVAL"),
+    (libc::EPERM, "EPERM"),
+    (libc::EFBIG, "EFBIG"),
+    (libc::EOVERFLOW, "EOVERFLOW"),
+    (libc::ENXIO, "ENXIO"),
+];
 const ERRNOS: [(i32, &str); 10] = [
     (libc::EIO, "EIO"),
     (libc::EACCES, "EACCES"),
@@ -96,7 +107,7 @@ impl Monitor for C11 {
         ]
     }
     fn rule(&self) -> String {
-        "case = one WAL image (1..8 files) produced by a generated history; per image the recovery's traced opendir/readdir/open/read/lseek calls are counted in a fault-free child, then EVERY n-th call of every class is failed once and from-then-on with each of 10 errnos in a fresh forked child (exhaustive per image over injection points); evaluation = one injected recovery; plus a bad-sector model (every read of recovery served short, the read that follows failing); oracle: the child must return Err(IoError) before a logical budget of 10x the fault-free traced calls + 1000; distinct_nontrivial = distinct (image, class, n, errno, mode) injections that hit a call after the first WAL file was opened".into()
+        "case = one WAL image (1..8 files) produced by a generated history; per image the recovery's traced opendir/readdir/open/read/lseek calls are counted in a fault-free child, then EVERY n-th call of every class is failed once and from-then-on with each of 10 errnos (EIO, EACCES, ENOENT, ESTALE, EAGAIN, ETIMEDOUT, EBUSY, ENOSPC + two rotating through EISDIR, ENOTDIR, ELOOP, EINVAL, EPERM, EFBIG, EOVERFLOW, ENXIO, ENOMEM, EMFILE) in a fresh forked child (exhaustive per image over injection points); evaluation = one injected recovery; plus a bad-sector model (every read of recovery served short, the read that follows failing); oracle: the child must return Err(IoError) before a logical budget of 10x the fault-free traced calls + 1000; distinct_nontrivial = distinct (image, class, n, errno, mode) injections that hit a call after the first WAL file was opened".into()
     }
     fn assumptions(&self) -> Vec<String> {
         vec![
@@ -169,10 +180,15 @@ impl Monitor for C11 {
         // block) + blocks; approximate by the number of blocks of the first file
         let first_file_blocks = img.files.values().next().map(|d| d.len() / 32768).unwrap_or(0) as i64;
         let mut sampled = false;
+        // errnos for this image: the ten standard ones, two of which are swapped for members
+        // of the pool (rotating with the case number)
+        let mut errnos: Vec<(i32, &str)> = ERRNOS.to_vec();
+        errnos[2] = ERRNO_POOL[(case as usize) % ERRNO_POOL.len()];
+        errnos[3] = ERRNO_POOL[(case as usize / ERRNO_POOL.len() + 3) % ERRNO_POOL.len()];
         for &cls in CLASSES.iter() {
             let n_calls = counts[cls];
             for nth in 1..=n_calls {
-                for &(errno, ename) in ERRNOS.iter() {
+                for &(errno, ename) in errnos.iter() {
                     for persistent in [false, true] {
                         img.materialize(&dir);
                         let end = in_child(60, 600, || child_open(&dir, key, Some((cls, nth, errno, persistent)), budget));
